@@ -5,6 +5,7 @@ THEOREMS = [
     "C07.drain_sorted",
     "C07.no_loop_once_between_resets",
     "C07.no_loop_once_engine_history",
+    "C07.no_loop_once_named_history",
     "C07.activation_group_once",
     "C07.focus_falls_back",
     "C07.fire_all_bounded_incremental",
@@ -28,6 +29,12 @@ RULE = ("cases = corpus (defect witnesses, hand-written corner cases) + N random
         "between, most rule sets with an always-true rule without no-loop below one or two no-loop rules, so that a call really stops at "
         "max_iterations = 1000 and the NEXT call (no reset) shows what survived: the clause `a no-loop rule fires at most once between "
         "resets` (C07.histOk) is evaluated over the whole history, every call must return at most 1000 names, under the same watchdog. "
+        "On top of the N cases come N/16 NAMED RULE SETS (`M`): 1..3 rule NAMES of which the first is (usually) registered 2..3 times "
+        "(the same rule added twice, variants with the same / a different salience, mostly all no-loop, sometimes mixed no-loop flags) "
+        "on ONE TypedReteUlEngine / ReteUlEngine / IncrementalEngine driven through 2..4 fire_all calls with reset_fired_flags / reset, "
+        "fact changes and (map engines) `<name>_fired` markers set from outside or by another rule's action during a cycle in between; "
+        "the clause `a no-loop rule NAME (every registration of the name is no-loop) fires at most once between resets` (C07.mhistOk / "
+        "C07.histOk with C07.nameNoLoop) is evaluated over the whole history on each engine. "
         "Each case is run on the real code and on the Lean model; observations (returned activation, focus, stats after every call; "
         "fired list and final counters; per-call results of a history) are diffed, and the Spec predicates C07.runOk / C07.runOkWeak / "
         "C07.fireAllOk / C07.histOk are evaluated on the "
@@ -46,6 +53,9 @@ ASSUMPTIONS = [
     "created_at is a tick count; with equal (salience, created_at) inside one agenda group BinaryHeap's order is unspecified: the model "
     "breaks the tie by the internal id, the order clauses of the Spec mention only (salience, created_at), and such histories are "
     "checked with the tie-insensitive predicate (partial: order under equal Instants is not predicted)",
+    "named rule sets (`M`): a rule NAME counts as no-loop when every registration of that name is no-loop (with mixed flags the "
+    "observations cannot tell the registrations apart); IncrementalEngine resolves a name to its FIRST registration when firing "
+    "(that registration's condition re-validates the activation) — mirrored by the model (C07.incStaleN), not judged",
     "IncrementalEngine engine cases use pairwise distinct priorities and no-op actions (creation order of activations of different "
     "rules comes from HashSet iteration); conflict-resolution strategies other than the Ord on Activation have no effect in the code "
     "(set_strategy re-sorts a temporary vector and rebuilds the same heaps) and are modelled as the identity",
@@ -62,13 +72,14 @@ def agree(case, impl, model):
 def classify(case, impl, model, oracle, kind):
     if kind == "oracle":
         return "oracle:" + oracle.replace("fail ", "").split("@")[0]
-    return "diff:" + case.split()[0] + (":" + case.split()[1] if case.startswith("E ") else "")
+    return "diff:" + case.split()[0] + (":" + case.split()[1] if case.startswith(("E ", "M ")) else "")
 
 
 LEVEL_TEXT = ("Lean 4 theorems (kernel-checked, unbounded: every agenda state / every history, every rule set and loop body) about an "
               "executable model of AdvancedAgenda and of the three fire_all loops: pop_is_max, drain_sorted, no_loop_once_between_resets, "
               "no_loop_once_engine_history (the same clause over any history of insert / update / retract / fire_all / reset calls on one IncrementalEngine, calls that stop at the bound included), "
-              "activation_group_once, focus_falls_back, fire_all_bounded for IncrementalEngine (at most 1000 executed activations; skipped ones are not counted after fix-C06b and terminate by agenda size: fire_all_skips_terminate), ReteUlEngine (100 passes) and "
+              "no_loop_once_named_history (the same clause per rule NAME over any history of fire_all / reset_fired_flags / set_fact calls on one TypedReteUlEngine or ReteUlEngine with any number of registrations per name), "
+              "activation_group_once, focus_falls_back, fire_all_bounded for IncrementalEngine (at most 1000 executed activations; skipped ones are not counted after fix-C06b and terminate by agenda size: fire_all_skips_terminate), ReteUlEngine (100 passes, model after fix-C07c: the `<name>_fired` fact is honoured for no-loop rules) and "
               "TypedReteUlEngine (100 passes, after fix-C07), and model_meets_spec for the observation-level predicates; tied to the Rust "
               "code by a correspondence check (model vs implementation after every call) and by evaluating the same Spec predicates on "
               "the implementation's observations.")
